@@ -449,6 +449,9 @@ fn c11_grid(tier: Tier) -> Vec<Program> {
         json!([u64::MAX, i64::MIN, i64::MAX, 0, -0.5, 0.000001, 999999e9]),
         json!("just a string"),
         json!(12345),
+        json!("{\"etag\":\"abc\",\"n\":[1,2]}"),
+        json!({"s": "[1,2,3]", "t": "null", "u": "{\"x\":1}"}),
+        json!("[\"a\"]"),
     ];
     let mut n = 0;
     for &t in &times {
